@@ -62,6 +62,13 @@ def step_orders(sh, params):
             db = ZODB.DB(st)
             with db.transaction() as c:
                 c.root()['x'] = objs.Plain()
+            if kind == 'file' and n % 2 == 0:
+                # a restarted storage: closed cleanly and opened again from its saved index (half of the file cases)
+                db.close()
+                st = FSM.FileStorage(os.path.join(d, 'D.fs'))
+                db = ZODB.DB(st)
+                kind = 'file-restarted'
+                sh.count('step_orders_on_a_restarted_storage')
             tms = [transaction.TransactionManager() for _ in range(nconn)]
             conns = [db.open(tm) for tm in tms]
             started = {}
